@@ -3,6 +3,7 @@ package main
 import (
 	"fmt"
 	"go/types"
+	"os"
 	"strings"
 
 	"golang.org/x/tools/go/ssa"
@@ -542,7 +543,19 @@ func (e *Engine) execGo(c *Config, f *Frame, x *ssa.Go) bool {
 		}
 		fn, bindings = fv.Fn, fv.Bindings
 	}
-	e.spawn(c, fn, args, bindings)
+	g := e.spawn(c, fn, args, bindings)
+	if g.site == "" && c.gor != nil {
+		if p := e.prog.Fset.Position(x.Pos()); p.IsValid() {
+			site := fmt.Sprintf("%s:%d", shortFile(p.Filename), p.Line)
+			occ := 0
+			for _, o := range e.gors {
+				if o != g && o.site == site && o.parent == c.gor.idx {
+					occ++
+				}
+			}
+			g.parent, g.site, g.occ = c.gor.idx, site, occ
+		}
+	}
 	return true
 }
 
@@ -737,26 +750,43 @@ func (e *Engine) appendOp(c *Config, cc *CallCtx, s *SliceV, more Value) Value {
 	// in-place part
 	inPlace := And(c.g, fits, Not(isNilTerm(s.Base)))
 	if !inPlace.IsFalse() && !nilOnly(s.Base) {
+		// footprint: one (over-approximate) write per backing array instead of one per element
+		for _, a := range s.Base.Alts {
+			if arr, ok := a.R.(*Cell); ok {
+				e.foot.write(arr.Obj, And(inPlace, a.G))
+			}
+		}
 		for i := 0; i < mMax; i++ {
 			gi := And(inPlace, Ult(BV(uint64(i), 64), m.Len))
 			if gi.IsFalse() {
 				continue
 			}
 			p := e.elemRef(c, s.Base, Add(s.Off, Add(s.Len, BV(uint64(i), 64))))
+			if i == 0 && os.Getenv("VERIF_DBG_APPEND") != "" {
+				lo, hi, ok := interval(s.Len)
+				fmt.Fprintf(os.Stderr, "append in-place: len=%s ivl=%d..%d %v alts=%d mMax=%d\n", s.Len, lo, hi, ok, len(p.Alts), mMax)
+			}
 			for _, a := range p.Alts {
 				cell := a.R.(*Cell)
 				g := And(gi, a.G)
-				e.foot.write(cell.Obj, g)
 				storeCell(cell, vals[i], g)
 			}
 		}
 		result = &SliceV{Base: s.Base, Off: s.Off, Len: newLen, Cap: s.Cap}
 	}
 	grow := And(c.g, Not(And(fits, Not(isNilTerm(s.Base)))))
+	if os.Getenv("VERIF_DBG_APPEND") != "" {
+		cl, ok := e.feasibleLeaves(c, s.Len, 32)
+		fmt.Fprintf(os.Stderr, "bdd: %+v\n", bddStats)
+		fmt.Fprintf(os.Stderr, "append: step=%d baseAlts=%d sMax=%d mMax=%d lens=%v %v growFalse=%v inPlaceFalse=%v terms=%d\n", e.step, len(s.Base.Alts), sMax, mMax, cl, ok, grow.IsFalse(), inPlace.IsFalse(), TS.next)
+	}
 	if !grow.IsFalse() {
 		// new backing array: concrete capacity = bound on old len + bound on appended, doubled once
 		if ub, ok := upperBound(s.Len); ok && ub < sMax {
 			sMax = ub
+		}
+		if lens, ok := e.feasibleLeaves(c, s.Len, 32); ok && len(lens) > 0 && int(lens[len(lens)-1]) < sMax {
+			sMax = int(lens[len(lens)-1])
 		}
 		n := sMax + mMax
 		if n == 0 {
@@ -782,6 +812,14 @@ func (e *Engine) appendOp(c *Config, cc *CallCtx, s *SliceV, more Value) Value {
 			k := Add(s.Len, BV(uint64(i), 64))
 			if k.IsConst() {
 				storeCell(arr.Kids[k.val], vals[i], gi)
+				continue
+			}
+			if lens, ok := e.feasibleLeaves(c, k, 32); ok {
+				for _, j := range lens {
+					if j < uint64(n) {
+						storeCell(arr.Kids[j], vals[i], And(gi, Eq(k, BV(j, 64))))
+					}
+				}
 				continue
 			}
 			for j := i; j < n && j <= sMax+i; j++ {
